@@ -33,7 +33,7 @@
    harness/c07.go.  The tie between [skel_step] and the real re-parse is checked
    there too (skeleton-step-differs). *)
 From Coq Require Import ZArith NArith List Bool String.
-From EvyV Require Import Base FmtAst Format FormatProofs FormatNlProofs FormatShapeProofs.
+From EvyV Require Import Base FmtAst Format FormatProofs FormatNlProofs FormatShapeProofs FormatSpecProofs.
 Import ListNotations.
 Open Scope N_scope.
 
@@ -41,6 +41,26 @@ Theorem C07_format_shape : forall (fixed : fixes) (p : fprog),
   wf_prog p = true -> shape_lines (format fixed p) = true.
 Proof. exact format_shape. Qed.
 Print Assumptions C07_format_shape.
+
+(* the same, read line by line: every newline-terminated line of the output is empty or
+   4k spaces followed by a non-empty text with no white space at either end, and no two
+   consecutive lines are empty ([lines_of], [line_ok], [nde] are defined in FormatSpecProofs.v) *)
+Theorem C07_format_lines : forall (fixed : fixes) (p : fprog),
+  wf_prog p = true ->
+  Forall line_ok (lines_of (format fixed p)) /\ nde false (lines_of (format fixed p)).
+Proof. exact format_lines_ok. Qed.
+Print Assumptions C07_format_lines.
+
+(* the scanner used above means what it should, for every text *)
+Theorem C07_shape_lines_meaning : forall s : str,
+  shape_lines s = true -> Forall line_ok (lines_of s) /\ nde false (lines_of s).
+Proof. exact shape_lines_spec. Qed.
+Print Assumptions C07_shape_lines_meaning.
+
+Theorem C07_ends_one_nl_meaning : forall s : str,
+  ends_one_nl s = true -> s = [10] \/ exists t c, s = t ++ [c; 10] /\ c <> 10.
+Proof. exact ends_one_nl_spec. Qed.
+Print Assumptions C07_ends_one_nl_meaning.
 
 Theorem C07_format_single_final_newline : forall (fixed : fixes) (p : fprog),
   wf_prog p = true -> p <> [] -> is_blank (last p (SEmpty [])) = false ->
